@@ -432,3 +432,32 @@ package mcp
 // cursorPtr / nextCursorPtr are field-address accessors on every list params / result type.
 //@ func (listParams).cursorPtr
 //@   abstract
+
+// ---------------------------------------------------------------------------------------------
+// C13: keep-alive
+// ---------------------------------------------------------------------------------------------
+// 'misses' is, by definition, the number of consecutive failed pings: reset by an answered ping, incremented by any
+// error other than method-not-found (which ends keep-alive).
+//@ func startKeepalive$1 [C13]
+//@   ghostvar misses int = 0
+//@   on call session.Ping: misses = result == nil ? 0 : (errIs(result, jsonrpc2.ErrMethodNotFound) ? misses : misses + 1)
+//@   track session.Ping as ping
+//@   track session.Close as closeSession
+//@   track Stop as tickerStop
+//@   modifies *
+//@   requires failureThreshold >= 1
+//@   assert at call session.Close: @closes-exactly-at-threshold misses == failureThreshold && calls(closeSession) == 0
+//@   assert at call context.WithTimeout: @ping-timeout-half-interval $1 == interval / 2
+//@   assert at call time.NewTicker: @ticks-every-interval $0 == interval
+//@   ensures @closed-at-most-once calls(closeSession) <= 1
+//@   ensures @closed-only-at-threshold calls(closeSession) == 1 ==> misses == failureThreshold
+//@   ensures @unsupported-ping-ends-silently calls(ping) >= 1 && lastResult(ping, 0) != nil && errIs(lastResult(ping, 0), jsonrpc2.ErrMethodNotFound) ==> calls(closeSession) == 0
+//@   ensures @ticker-stopped calls(tickerStop) == 1
+//@   loop 1: invariant @counter-is-misses local(consecutiveFailures) == misses && 0 <= misses && misses < failureThreshold
+//@   loop 1: invariant @not-closed calls(closeSession) == 0 && calls(tickerStop) == 0
+
+// The cancel function is published before the goroutine starts and the threshold is normalised to at least 1.
+//@ func startKeepalive [C13]
+//@   track context.WithCancel as withCancel
+//@   modifies *
+//@   requires cancelPtr != nil
